@@ -66,7 +66,7 @@ def OS.delete (s : OS) (id : Nat) : Option OS :=
         | some pid =>
           let last' : Batch := ⟨mb.msgs, noNext⟩
           let db1 := SMap.put s.db pid last'
-          some ⟨SMap.erase db1 id, last', SMap.erase s.cache id⟩
+          some ⟨SMap.erase db1 id, last', SMap.erase (SMap.erase s.cache pid) id⟩
     else
       some ⟨SMap.erase s.db id, s.last, SMap.erase s.cache id⟩
 
@@ -111,7 +111,7 @@ def OS.getNextP1 (s : OS) (x : Nat) : OS × P1 :=
 inductive P2 where
   | ret (msgs : List Msg)
   | wait (cur : Nat)     -- nothing newer yet: `Cond.Wait` (or return [] when cancelled)
-  | restart              -- the batch waited behind vanished: start over with P1
+  | restart              -- the batch waited behind vanished, or its successor did: start over with P1
   | panic
   deriving Repr, DecidableEq
 
@@ -126,7 +126,7 @@ def OS.getNextP2 (s : OS) (x : Nat) : Nat → Nat → OS × P2
     | some c =>
       let (s2, nx) := s1.getU c.next
       match nx with
-      | none => (s2, .wait cur)
+      | none => if c.next < noNext then (s2, .restart) else (s2, .wait cur)
       | some n =>
         match n.id? with
         | none => (s2, .panic)
